@@ -73,6 +73,40 @@ func execStep(context *exprContext, expr *grammar.Grammar) error {
 	}
 
 	switch nextBsr.Label.Slot().NT {
+	case symbols.NT_NodeTestAndPredicate,
+		symbols.NT_StepWithAxisAndNodeTestAndPredicate:
+		nodeSet, ok := context.result.(NodeSet)
+
+		if ok && len(nodeSet) > 1 {
+			merged := make(NodeSet, 0)
+
+			for _, i := range nodeSet {
+				next := context.copy()
+				next.result = NodeSet{i}
+
+				if err := execStepOnce(&next, expr, nextBsr); err != nil {
+					return err
+				}
+
+				nextNodeSet, ok := next.result.(NodeSet)
+
+				if !ok {
+					return errQueryNonNodeset
+				}
+
+				merged = append(merged, nextNodeSet...)
+			}
+
+			context.result = unionCleanup(merged)
+			return nil
+		}
+	}
+
+	return execStepOnce(context, expr, nextBsr)
+}
+
+func execStepOnce(context *exprContext, expr *grammar.Grammar, nextBsr *bsr.BSR) error {
+	switch nextBsr.Label.Slot().NT {
 	case symbols.NT_NodeTest,
 		symbols.NT_NodeTestAndPredicate,
 		symbols.NT_NodeTestNodeTypeNoArgTest,
